@@ -40,5 +40,10 @@ func SentinelMiddleware(opts ...Option) gin.HandlerFunc {
 
 		defer entry.Exit()
 		c.Next()
+		// A gin handler has no return value: it reports a failure by attaching the error to the
+		// context (c.Error, c.AbortWithError), which is where the middlewares around it find it.
+		if last := c.Errors.Last(); last != nil {
+			sentinel.TraceError(entry, last.Err)
+		}
 	}
 }
